@@ -108,9 +108,13 @@ class IncludeExcludeTree():
                 if key in exclude:
                     continue
                 elif key in self.subtrees:
+                    subtree = self.subtrees[key]
                     if isinstance(value, dict):
-                        # otherwise it won't be selected anyway
-                        result[key] = self.subtrees[key].get(value)
+                        result[key] = subtree.get(value)
+                    elif subtree.include:
+                        # not a dictionary: it is selected as a whole,
+                        # if the subtree includes by default
+                        result[key] = value
                 else:
                     result[key] = value
         else:
@@ -120,9 +124,13 @@ class IncludeExcludeTree():
                 if key in include:
                     result[key] = value
                 elif key in self.subtrees:
+                    subtree = self.subtrees[key]
                     if isinstance(value, dict):
-                        # otherwise it won't be selected
-                        result[key] = self.subtrees[key].get(value)
+                        result[key] = subtree.get(value)
+                    elif subtree.include:
+                        # not a dictionary: it is selected as a whole,
+                        # if the subtree includes by default
+                        result[key] = value
                 else:
                     continue
 
